@@ -25,7 +25,9 @@ Decos == {"none", "swift_deco", "swift_decos2", "kotlin_deco", "redacted", "cons
 Docs == {"none", "all", "multiline", "hostile", "hostile_multi"}
 \* folder: folder-output mode with a second crate whose type is imported (import lines are part of the file)
 \* packages_single: package names of ONE segment (com.example.app is three): Kotlin / Scala / Go
-Cfgs == {"default", "prefix", "packages", "packages_single", "swift_defaults", "header", "folder", "folder_prefix"}
+\* ts_special_mapped: TypeScript mappings for SPECIAL Rust types onto types with a custom JSON translation ("OffsetDateTime" = "Date",
+\* "Vec<u8>" = "Uint8Array"): the reviver / replacer helper code is assembled from what was registered while the items were written
+Cfgs == {"default", "prefix", "packages", "packages_single", "ts_special_mapped", "swift_defaults", "header", "folder", "folder_prefix"}
 
 HasMembers(k) == k \in {"struct", "generic_struct", "unit_enum", "enum_newtype", "enum_struct", "enum_mixed", "generic_enum", "enum_tag_dashed", "enum_tag_kw"}
 IsEnum(k) == k \in {"unit_enum", "enum_newtype", "enum_struct", "enum_mixed", "generic_enum", "enum_tag_dashed", "enum_tag_kw"}
